@@ -82,6 +82,7 @@ class _ScopeRec:
         self.timeout_raised = False
         self.own_cancel_calls = 0  # task.cancel(msg=<this scope's id>) calls observed
         self.foreign_pending_at_exit = False
+        self.foreign_pending_at_entry = False
         self.env_depth = 0
         self.outer_cancelled_at_exit = False
         self.when: float | None = None
@@ -301,6 +302,7 @@ class RealRun:
                     rec.obj = scope
                     self.by_obj_id[f"{id(scope):x}"] = rec
                     rec.entered_at = now
+                    rec.foreign_pending_at_entry = self.foreign_pending(tc)
                     tc.scopes.append(rec)
                     pushed = True
                     try:
@@ -550,7 +552,8 @@ from ..core import Check, Layer, Outcome  # noqa: E402
 # interpreter on the program, and by its signature in the observed run) and the case is counted in an `excluded-*`
 # class instead of being judged, so that the search continues past it.  A case carrying "no_exclude": true (the
 # saved replays of the findings) is always judged.  VERIF_C13_NO_EXCLUDE=D5,D6 switches the exclusion off for a run.
-EXCLUDE_D5 = True  # a foreign task.cancel() and a hosted scope's own cancellation pending on one task together
+EXCLUDE_D5 = False  # repaired in /repo (7cc1920): the shape is searched again; a foreign task.cancel() and a hosted scope's own cancellation pending on one task together
+EXCLUDE_D5B = True  # residue of D5: a foreign task.cancel() that is already pending (postponed by a shield) when a scope that gets cancelled is entered
 EXCLUDE_D29 = True  # a foreign task.cancel() postponed by ignore_cancellation() is forgotten when the awaited future ends cancelled
 EXCLUDE_D6 = False  # repaired in /repo (86899fe): the shape is searched again; a scope cancelled while its host task is suspended exits without a CancelledError passing it
 
@@ -559,6 +562,8 @@ if "D5" in _off:
     EXCLUDE_D5 = False
 if "D6" in _off:
     EXCLUDE_D6 = False
+if "D5B" in _off:
+    EXCLUDE_D5B = False
 if "D29" in _off:
     EXCLUDE_D29 = False
 
@@ -603,6 +608,12 @@ def _shield_bodies(body: list) -> list[list]:
 def _real_sig_d5(real: RealRun) -> bool:
     """a cancelled scope was left while a task.cancel() that no scope issued was pending on its host task"""
     return any(r.cancel_called and r.foreign_pending_at_exit for r in real.scopes.values())
+
+
+def _real_sig_d5b(real: RealRun) -> bool:
+    """a scope that got cancelled was *entered* while a task.cancel() that no scope issued was already pending on its host task
+    (postponed by a shield that has ended, or by one that is still around the scope)"""
+    return any(r.cancel_called and r.foreign_pending_at_entry for r in real.scopes.values())
 
 
 def _sig_d6(r: _ScopeRec) -> bool:
@@ -701,6 +712,13 @@ def _run(case: dict, exact_layer: bool) -> Outcome:
             classes.append("excluded-D5" if model.d5_shape else "excluded-D5-signature-only")
     if d6:
         classes.append("shape-D6")
+    d5b = _real_sig_d5b(real)
+    if d5b:
+        classes.append("shape-D5b")
+        if EXCLUDE_D5B and not judged_anyway:
+            waived |= D5_KINDS
+            skip_exact = True
+            classes.append("excluded-D5b")
     d29 = bool(real.d29_shape)
     if d29:
         classes.append("shape-D29")
@@ -737,6 +755,7 @@ def _run(case: dict, exact_layer: bool) -> Outcome:
             shape_d5=d5,
             shape_d6=d6,
             shape_d29=d29,
+            shape_d5b=d5b,
         )
 
     if model.exact() and model.d5_shape != _real_sig_d5(real):
